@@ -223,13 +223,15 @@ def run_check(pid, tier, seed):
             argv = [st["cmd"], "-seed", str(seed), "-tier", tier, "-shard", str(sh), "-nshards", str(n)] + st.get("args", [])
             tag = "%s.%s.s%d.%d" % (pid, st["cmd"], si, sh)
             jobs.append((st, argv, tag))
-    results = []
+    results = [None] * len(jobs)
     par = min(NCPU, max(1, spec.get("parallel", NCPU)))
-    with ThreadPoolExecutor(max_workers=par) as ex:
-        futs = [ex.submit(run_child, st["variant"], argv, tag, st.get("timeout", 3600), st.get("env"), st.get("race", False))
-                for st, argv, tag in jobs]
-        for fu in futs:
-            results.append(fu.result())
+    # stages may carry a "phase": phases run one after the other (e.g. emit, then compare)
+    for phase in sorted({st.get("phase", 0) for st, _, _ in jobs}):
+        with ThreadPoolExecutor(max_workers=par) as ex:
+            futs = {i: ex.submit(run_child, st["variant"], argv, tag, st.get("timeout", 3600), st.get("env"), st.get("race", False))
+                    for i, (st, argv, tag) in enumerate(jobs) if st.get("phase", 0) == phase}
+            for i, fu in futs.items():
+                results[i] = fu.result()
     harness_err = False
     for r, (st, _argv, _tag) in zip(results, jobs):
         if r["res"] is None and st.get("crash_is_violation"):
